@@ -43,8 +43,8 @@ Fixpoint stmt_eqb (a b : stmt) {struct a} : bool :=
   | SReturn _ e, SReturn _ f => expr_eqb e f
   | SPass _, SPass _ | SBreak _, SBreak _ | SContinue _, SContinue _ => true
   | SIf _ c a1 a2, SIf _ d b1 b2 => expr_eqb c d && blk_eqb a1 b1 && blk_eqb a2 b2
-  | SWhile _ c a1, SWhile _ d b1 => expr_eqb c d && blk_eqb a1 b1
-  | SFor _ x e a1, SFor _ y f b1 => N.eqb x y && expr_eqb e f && blk_eqb a1 b1
+  | SWhile _ c a1 a2, SWhile _ d b1 b2 => expr_eqb c d && blk_eqb a1 b1 && blk_eqb a2 b2
+  | SFor _ x e a1 a2, SFor _ y f b1 b2 => N.eqb x y && expr_eqb e f && blk_eqb a1 b1 && blk_eqb a2 b2
   | SCall _ r1 g1 a1 t1 s1, SCall _ r2 g2 b1 t2 s2 =>
       vars_eqb r1 r2 && vars_eqb g1 g2 && blk_eqb a1 b1 && Bool.eqb t1 t2 && Bool.eqb s1 s2
   | _, _ => false
@@ -55,7 +55,7 @@ Definition blk_eqb : list stmt -> list stmt -> bool := list_eqb stmt_eqb.
 Fixpoint lines_s (s : stmt) : list N :=
   match s with
   | SIf l _ a b => l :: flat_map lines_s a ++ flat_map lines_s b
-  | SWhile l _ b | SFor l _ _ b => l :: flat_map lines_s b
+  | SWhile l _ b e | SFor l _ _ b e => l :: flat_map lines_s b ++ flat_map lines_s e
   | s => [line_of s]
   end.
 (* strict equality of located programs (statements, lines, position of the region) *)
